@@ -1,7 +1,7 @@
 """C02 - Blocks take effect only when causally complete: typestate analysis of Delta.status."""
 from ..cfg import cfg_of
 from ..defuse import du_of, walk, peel, callee_name, fmt
-from ..conds import lits_of, all_edge_lits, status_variant
+from ..conds import Lit, lits_of, all_edge_lits, status_variant
 from ..callgraph import cg_of
 from ..roles import roles_of
 from ..common import arg_term, contains_call, call_named, field_path, assigns_of_return
@@ -270,16 +270,75 @@ def run(facts, res):
                           "listed before its parent is held back although the parent is in storage" % (name, late[0][0].name()), late[0][0].loc())
     res.floor("A4", "refresh/reload anchors", n4, 3)
 
+    # ------------------------------------------------------------------ A6 sibling agreement on bad items
+    res.rule("A6", "reload, refresh and reload_until treat an unreadable / invalid listed item alike (sibling agreement)")
+    from .. import iters
+
+    def failure_policy(body, per_item):
+        """per-item fallible functions (paths) whose failure leaves the listing loop (abort); None when no such loop.
+        A call site counts for every per-item function it is or reaches (extracted helpers)."""
+        found = False
+        aborts = set()
+        site_at = {s_.block: s_ for s_ in cg.sites[body.path]}
+
+        def reached(s_):
+            out = set()
+            for t_ in s_.targets:
+                for pth in per_item:
+                    if t_.path == pth or cg.reaches(t_, pth):
+                        out.add(pth)
+            return out
+        for hb, ht in body.calls():
+            if ht.callee is None or ht.callee.name != "next":
+                continue
+            blocks = iters.loop_body_blocks(body, hb)
+            if not any(x in site_at and reached(site_at[x]) for x in blocks):
+                continue
+            found = True
+            for (x, y) in iters.early_exits(body, hb, blocks):
+                for l in lits_of(body, y, facts):
+                    if l.block in blocks and l.says_err():
+                        for c_ in walk(l.term):
+                            if c_[0] == "call" and c_[3] in blocks and c_[3] in site_at:
+                                aborts |= reached(site_at[c_[3]])
+        return aborts if found else None
+    groups = [("block listing", [facts.body(n) for n in ("melda::Melda::reload", "melda::Melda::refresh", "melda::Melda::reload_until")],
+               {"melda::DeltaId::from", R.path("fetcher"), R.path("loader")}),
+              ("pack listing", [facts.body(n) for n in ("datastorage::DataStorage::reload", "datastorage::DataStorage::refresh")],
+               {R.path("pack_loader"), R.path("pack_applier")})]
+    n6 = 0
+    for what, bodies, per_item in groups:
+        pol = {}
+        for ob in bodies:
+            if ob is None:
+                continue
+            fp_ = failure_policy(ob, per_item)
+            if fp_ is not None:
+                pol[ob.path] = frozenset(fp_)
+                n6 += 1
+        vals = list(pol.values())
+        res.instance("A6", "%s loops: failures that abort the operation: %s" % (what, {k.split("::")[-1]: sorted(x_.split("::")[-1] for x_ in v) for k, v in pol.items()}), None)
+        if len(set(vals)) > 1:
+            common = max(set(vals), key=lambda v: (vals.count(v), -len(v)))
+            for k, v in sorted(pol.items()):
+                if v != common:
+                    res.violation("A6", "%s|bad-item-policy-differs" % k,
+                                  "%s handles a listed item that cannot be read or parsed differently from its siblings (aborts on failure of %s, siblings on %s): "
+                                  "an incremental refresh and a full reload of the same storage would disagree" % (
+                                      k, sorted(x_.split("::")[-1] for x_ in v), sorted(x_.split("::")[-1] for x_ in common)), facts.body(k).loc())
+    res.floor("A6", "listing loops with per-item fallible steps", n6, 5)
+
     # ------------------------------------------------------------------ A5
     preds = set()
     for (b, bi, st, v) in all_writes:
         pass
     rb = facts.body(ready_fns[0]) if ready_fns else None
     if rb is not None:
-        for s in cg.sites[rb.path]:
-            for t in s.targets:
-                if t.impl_adt == "datastorage::DataStorage" and t.local_ty(0) == "bool":
-                    preds.add(t.path)
+        for rbb in [rb] + facts.closures_of(rb.path):
+            for s in cg.sites[rbb.path]:
+                for t in s.targets:
+                    if t.impl_adt == "datastorage::DataStorage" and t.local_ty(0) == "bool":
+                        preds.add(t.path)
     res.floor("A5", "availability predicates used by the Ready check", len(preds), 1)
     for pp in sorted(preds):
         pb = facts.body(pp)
@@ -382,7 +441,20 @@ def check_ready_earned(b, ready_block, facts, res):
                 for fld in ("parents", "packs", "changes"):
                     if any(x[0] == "field" and x[2] == fld for x in walk(pt)):
                         loops[fld] = (e, l)
-    res.floor("A2", "dependency loops (parents, packs, changes)", len(loops), 3)
+    # closure form of a dependency check: `field.iter().all(|x| ok(x))` / `!field.iter().any(|x| !ok(x))`
+    cforms = {}
+    for bi_, t_ in b.calls():
+        if t_.callee is None or t_.callee.name not in ("all", "any") or len(t_.args) < 2:
+            continue
+        recv_ = du.operand_term(t_.args[0], 20)
+        for fld in ("parents", "packs", "changes"):
+            if fld not in loops and any(x[0] == "field" and x[2] == fld for x in walk(recv_)):
+                cl_ = [x for x in walk(du.operand_term(t_.args[1], 8)) if x[0] == "closure"]
+                cbody = facts.body(cl_[0][1]) if cl_ else None
+                if cbody is not None:
+                    cforms[fld] = (bi_, cbody, t_.callee.name)
+    res.floor("A2", "dependency checks (parents, packs, changes) as loops or all()/any() closures", len(loops) + len(cforms), 3)
+    MODE = {"closure": None}
 
     def loop_body(fld):
         entry, l = loops[fld]
@@ -391,8 +463,57 @@ def check_ready_earned(b, ready_block, facts, res):
         hdrs = {header} | set(cfg.block_preds(header))
         return cfg.reachable_blocks(entry, avoid=hdrs) | {l.edge[3]}
 
+    def must_pass_closure(fld, what, pass_pred):
+        call_block, cb, kind = cforms[fld]
+        ccfg = cfg_of(cb)
+        cdu = du_of(cb)
+        # (1) outer: Ready is reachable from the call only over the edge `all(..) == true` / `any(..) == false`
+        want = (kind == "all")
+        pass_edges = {e for e, l in edges if l.kind == "call" and callee_name(l.term) == kind and l.term[3] == call_block and l.truth is want}
+        outer_ok = bool(pass_edges) and not cfg.reaches(call_block, ready_block, avoid=set(pass_edges))
+        # (2) inner: the closure yields the passing value (true for all, false for any) only through the check's pass edge
+        MODE["closure"] = cb
+        inner_ok = True
+        n_sites = 0
+        try:
+            def value_sites(local, neg, depth=0):
+                """[(block, constant value or None, call term or None)]: where the bool in `local` gets its value"""
+                out = []
+                for d in cdu.full_defs(local):
+                    if d.kind == "call":
+                        out.append((d.block, None, (cdu.call_term(d.term, d.block, 14), neg)))
+                        continue
+                    rv = d.rv
+                    ops = rv.operands()
+                    if rv.kind == "use" and ops and ops[0].is_const() and "bool" in ops[0].j:
+                        out.append((d.block, bool(ops[0].j["bool"]) != neg, None))
+                    elif rv.kind in ("use", "unop") and ops and ops[0].place is not None and not ops[0].place.proj and depth < 6 and \
+                            (rv.kind == "use" or rv.j.get("op") == "Not"):
+                        out += value_sites(ops[0].place.local, neg != (rv.kind == "unop"), depth + 1)
+                    else:
+                        out.append((d.block, None, None))
+                return out
+            for (sblk, cval, callinfo) in value_sites(0, False):
+                if cval is not None and cval != want:
+                    continue                # the failing value: no obligation
+                n_sites += 1
+                ok_here = any(pass_pred(l) for l in lits_of(cb, sblk, facts))
+                if not ok_here and callinfo is not None:
+                    ct, neg = callinfo
+                    ok_here = pass_pred(Lit("call", ct, truth=(want != neg), block=sblk))
+                inner_ok = inner_ok and ok_here
+        finally:
+            MODE["closure"] = None
+        res.instance("A2", "%s check (closure form %s): Ready only over the passing edge (%s); the closure passes only through `%s` (%d site(s): %s)" % (
+            fld, kind, outer_ok, what, n_sites, inner_ok), b.loc(b.blocks[call_block].term.line))
+        if not (outer_ok and inner_ok and n_sites):
+            res.violation("A2", "%s|missing-guard:%s" % (b.path, what.replace(" ", "_")),
+                          "%s can write status = Ready without every element of `%s` passing the check `%s` (closure form `%s`)" % (b.path, fld, what, kind), b.loc())
+
     def must_pass(fld, what, pass_pred):
         if fld not in loops:
+            if fld in cforms:
+                must_pass_closure(fld, what, pass_pred)
             return
         entry, _ = loops[fld]
         body_blocks = loop_body(fld)
@@ -460,21 +581,15 @@ def check_ready_earned(b, ready_block, facts, res):
 
     def is_call(l, name, truth):
         return l.kind == "call" and callee_name(l.term) == name and l.truth is truth
+    is_call_ = is_call
 
     def elem_of(t, fld):
         """term mentions the element of the current iteration of loop `fld` (the payload of its next())"""
+        if MODE["closure"] is not None:
+            return any(x[0] == "param" and x[1] == 2 for x in walk(t))
         _, ll = loops[fld]
         hb = peel(ll.term)[3]
         return any(x[0] == "call" and callee_name(x) == "next" and x[3] == hb for x in walk(t))
-
-    # (a) parents
-    must_pass("parents", "parent is known",
-              lambda l: ((is_call(l, "is_none", False) or is_call(l, "is_some", True)) and contains_call(l.term[2][0], "get")
-                         and elem_of(l.term[2][0], "parents"))
-              or (is_call(l, "contains_key", True) and len(l.term[2]) >= 2 and elem_of(l.term[2][1], "parents")
-                  and any(x[0] == "field" and x[2] == "deltas" for x in walk(l.term[2][0])))
-              or (l.kind == "variant" and l.variants == {"Some"} and peel(l.term)[0] == "call" and callee_name(peel(l.term)) == "get"
-                  and elem_of(l.term, "parents")))
 
     def parent_state_ok(l):
         if l.kind == "variant" and l.adt == STATUS and l.variants and l.variants <= {"Ready", "Applied"}:
@@ -488,6 +603,28 @@ def check_ready_earned(b, ready_block, facts, res):
             if v and v[1] in ("Ready", "Applied") and contains_call(x, b.name) and elem_of(x, "parents"):
                 return True
         return False
+    # (a) parents
+    # the function reports an unknown block as Blocked itself: every return under `block map .get(<own id parameter>) is None`
+    # is Status::Blocked - then `recursive call says Ready|Applied` already implies `parent is known`
+    unknown_blocked = []
+    for ob_, st_ in assigns_of_return(b):
+        for l_ in lits_of(b, ob_, facts):
+            none_ = (l_.kind == "variant" and l_.variants == {"None"}) or is_call_(l_, "is_none", True) or is_call_(l_, "is_some", False)
+            tt_ = l_.term if l_.kind == "variant" else (l_.term[2][0] if l_.kind == "call" and l_.term[2] else None)
+            if none_ and tt_ is not None and contains_call(tt_, "get") and any(x[0] == "param" and x[1] == 2 for x in walk(tt_)):
+                v_ = status_variant(du.rvalue_term(st_.rv, 8))
+                unknown_blocked.append(bool(v_) and v_[1] == "Blocked")
+    implied_known = bool(unknown_blocked) and all(unknown_blocked)
+    res.instance("A2", "%s answers Blocked for an id missing from the block map (a recursive Ready|Applied answer implies `known`): %s" % (b.path, implied_known), b.loc())
+    must_pass("parents", "parent is known",
+              lambda l: ((is_call(l, "is_none", False) or is_call(l, "is_some", True)) and contains_call(l.term[2][0], "get")
+                         and elem_of(l.term[2][0], "parents"))
+              or (is_call(l, "contains_key", True) and len(l.term[2]) >= 2 and elem_of(l.term[2][1], "parents")
+                  and any(x[0] == "field" and x[2] == "deltas" for x in walk(l.term[2][0])))
+              or (l.kind == "variant" and l.variants == {"Some"} and peel(l.term)[0] == "call" and callee_name(peel(l.term)) == "get"
+                  and elem_of(l.term, "parents"))
+              or (implied_known and parent_state_ok(l)))
+
     must_pass("parents", "parent is Ready or Applied", parent_state_ok)
     # (b) packs: the verified pack loader (role: DataStorage method returning the pack bytes after the hash check)
     must_pass("packs", "pack loads and matches its hash",
